@@ -1,6 +1,8 @@
 import Ptk.Proto
 import Ptk.Gen.PyChars
 import Ptk.Model.C08
+import Ptk.Model.C08Session
+import Ptk.Model.C08Visual
 open Ptk Ptk.Py Ptk.Proto Ptk.C08
 
 /-- ASCII versions of the transform callbacks (the correspondence uses ASCII letters and
@@ -62,6 +64,18 @@ def decMotion : List String → Option Motion
   | ["iq", q] => do pure (.quote (← decChar q) true)
   | ["aq", q] => do pure (.quote (← decChar q) false)
   | ["rep", rev] => do pure (.repeatFind none (← decBool rev))
+  | ["ge"] => some (.ge false)
+  | ["gE"] => some (.ge true)
+  | ["g_"] => some .gUnder
+  | ["|"] => some .bar
+  | ["%"] => some (.percent false)
+  | ["{"] => some .braceUp
+  | ["}"] => some .braceDown
+  | ["ap"] => some .ap
+  | ["H", r] => do pure (.screen .top (← decOptNat r))
+  | ["M", r] => do pure (.screen .middle (← decOptNat r))
+  | ["L", r] => do pure (.screen .bottom (← decOptNat r))
+  | ["gm", w] => do pure (.gm (← decOptNat w))
   | ["raw", s, e, ty] => do
       pure (.raw { start := (← decInt s), stop := (← decInt e), type := (← decType ty) })
   | _ => none
@@ -75,6 +89,7 @@ def decOp (name : String) (reg : Option Char) : Option Op :=
   | "gu" => some (.transform .lower)
   | "gU" => some (.transform .upper)
   | "g~" => some (.transform .swap)
+  | "~" => some tildeOp
   | ">" => some .indent
   | "<" => some .unindent
   | _ => none
@@ -92,17 +107,151 @@ def encSt (s : St) : String :=
   s!"{encStr s.text} {s.cur} {encClip s.clip} " ++
     encList (fun p => s!"{p.1.toNat} {encClip p.2}") regs ++ s!" {encBool s.insert}"
 
+
+/-! ### sessions -/
+
+def decKey : List String → Option Key
+  | ["D", d] => do
+      let n ← decNat d
+      if h : n < 10 then pure (.digit ⟨n, h⟩) else none
+  | ["O", name, reg] => do pure (.op (← decOp name (← decOptChar reg)))
+  | "M" :: mot => do pure (.motion (← decMotion mot))
+  | ["E"] => some .escape
+  | ["C"] => some .ctrlO
+  | ["U"] => some .unbound
+  | ["T", t] => do pure (.typed (← decStr t))
+  | ["B", ">>"] => some (.double .indent)
+  | ["B", "<<"] => some (.double .unindent)
+  | ["B", "guu"] => some (.double .lower)
+  | ["B", "gUU"] => some (.double .upper)
+  | ["B", "g~~"] => some (.double .swap)
+  | _ => none
+
+/-- split a token list at the separator token -/
+def splitToks (sep : String) : List String → List (List String)
+  | [] => [[]]
+  | t :: ts =>
+    match splitToks sep ts with
+    | [] => [[t]]
+    | g :: gs => if t == sep then [] :: g :: gs else (t :: g) :: gs
+
+def encOptNat : Option Nat → String
+  | none => "N"
+  | some n => toString n
+
+def encSess (full : Bool) (ss : Sess) : String :=
+  if full then
+    encSt ss.st ++ s!" P{encBool ss.pending.isSome} {encOptNat ss.opArg} {encOptNat ss.arg} " ++
+      s!"{encBool ss.tempNav} " ++
+      (match ss.lastFind with | none => "N" | some (c, bw) => s!"{c.toNat}:{encBool bw}")
+  else encSt ss.st
+
+/-- run the pieces; `.` emits the state (`full` for all emissions or only for the last one) -/
+def runPieces (full : Bool) : Option Sess → List (List String) → List String → List String
+  | _, [], acc => acc.reverse
+  | cur, p :: ps, acc =>
+    if p == ["."] then
+      let isLast := ps.all (· != ["."])
+      let out := match cur with
+        | some ss => encSess (full || isLast) ss
+        | none => "unmodelled"
+      runPieces full cur ps (out :: acc)
+    else
+      match cur, decKey p with
+      | some ss, some k => runPieces full (step env ss k) ps acc
+      | none, some _ => runPieces full none ps acc
+      | _, none => runPieces full none ps ("bad-key" :: acc)
+
+def handleSess (toks : List String) : String :=
+  match toks with
+  | full :: t :: c :: ct :: cl :: lfc :: lfb :: ins :: tn :: "/" :: rest =>
+    match decBool full, decStr t, decNat c, decStr ct, decBool cl, decOptChar lfc, decBool ins,
+          decBool tn with
+    | some full, some t, some c, some ct, some cl, some lfc, some ins, some tn =>
+      let lf := match lfc with
+        | some ch => some (ch, lfb == "1")
+        | none => none
+      let ss : Sess := { st := { text := t, cur := c, clip := { text := ct, lines := cl }, regs := [],
+                                 insert := ins }, lastFind := lf, tempNav := tn }
+      " | ".intercalate (runPieces full (some ss) (splitToks "/" rest) [])
+    | _, _, _, _, _, _, _, _ => "bad-op"
+  | _ => "bad-op"
+
+/-! ### visual mode -/
+
+def encSelType : SelType → String
+  | .chars => "0"
+  | .lines => "1"
+  | .block => "2"
+
+def encVClip (c : VClip) : String := s!"{encStr c.text} {encSelType c.ty}"
+
+def sortVRegs (rs : List (Char × VClip)) : List (Char × VClip) :=
+  rs.foldl (fun acc p =>
+    (acc.takeWhile fun q => q.1.toNat < p.1.toNat) ++ p ::
+      (acc.dropWhile fun q => q.1.toNat < p.1.toNat)) []
+
+def encVSt (s : VSt) : String :=
+  s!"{encStr s.text} {s.cur} {encVClip s.clip} " ++
+    encList (fun p => s!"{p.1.toNat} {encVClip p.2}") (sortVRegs s.regs) ++ s!" {encBool s.insert}"
+
+def decVKey : List String → Option VKey
+  | ["D", d] => do
+      let n ← decNat d
+      if h : n < 10 then pure (.digit ⟨n, h⟩) else none
+  | "M" :: mot => do pure (.motion (← decMotion mot))
+  | ["J"] => some (.line true)
+  | ["K"] => some (.line false)
+  | _ => none
+
+def handleVis (toks : List String) : String :=
+  match toks with
+  | t :: c :: ct :: cl :: lfc :: lfb :: ty :: "/" :: rest =>
+    match decStr t, decNat c, decStr ct, decBool cl, decOptChar lfc with
+    | some t, some c, some ct, some cl, some lfc =>
+      let lf := match lfc with
+        | some ch => some (ch, lfb == "1")
+        | none => none
+      let ty := if ty == "2" then SelType.block else if ty == "1" then SelType.lines else SelType.chars
+      let s : St := { text := t, cur := c, clip := { text := ct, lines := cl }, regs := [], insert := false }
+      let pieces := splitToks "/" rest
+      match pieces.getLast?, pieces.dropLast.mapM decVKey with
+      | some ["E"], some ks =>
+        match visualEscape env s lf ty ks with
+        | some s' => encVSt s'.toV ++ " S0"
+        | none => "unmodelled"
+      | some ["O", name, reg], some ks =>
+        match decOptChar reg with
+        | some reg =>
+          match decOp name reg with
+          | some op =>
+            match visualKeys env s lf ty ks op with
+            | some s' => encVSt s' ++ " S0"
+            | none => "err"
+          | none => "bad-op"
+        | none => "bad-op"
+      | _, _ => "bad-op"
+    | _, _, _, _, _ => "bad-op"
+  | _ => "bad-op"
+
 def handle (toks : List String) : String :=
   match toks with
+  | "vis" :: rest => handleVis rest
+  | "sess" :: rest => handleSess rest
   | "e2e" :: t :: c :: ct :: cl :: oa :: opn :: reg :: ma :: mot =>
     match decStr t, decNat c, decStr ct, decBool cl, decOptNat oa, decOptChar reg, decOptNat ma,
           decMotion mot with
     | some t, some c, some ct, some cl, some oa, some reg, some ma, some m =>
+      let s : St := { text := t, cur := c, clip := { text := ct, lines := cl }, regs := [],
+                      insert := false }
+      if opn == "gq" then
+        match runReshapeKeys env 80 s oa ma (resolve none (oa.isSome || ma.isSome) m) with
+        | some s' => encSt s'
+        | none => "err"
+      else
       match decOp opn reg with
       | some op =>
-        let s : St := { text := t, cur := c, clip := { text := ct, lines := cl }, regs := [],
-                        insert := false }
-        match runKeys env s oa op ma m with
+        match runKeys env s oa op ma (resolve none (oa.isSome || ma.isSome) m) with
         | some s' => encSt s'
         | none => "err"
       | none => "bad-op"
@@ -132,7 +281,7 @@ def handle (toks : List String) : String :=
     | some t, some c, some ma, some m =>
       let s : St := { text := t, cur := c, clip := { text := [], lines := false }, regs := [],
                       insert := false }
-      toString (moveAloneKeys env s ma m)
+      toString (moveAloneKeys env s ma (resolve none ma.isSome m))
     | _, _, _, _ => "bad-op"
   | ["raw", t, c, s, e, ty] =>
     match decStr t, decNat c, decInt s, decInt e, decType ty with
